@@ -172,8 +172,8 @@ def check(ctx, rep):
         if not n_paths:
             problems.append("no path through prepare() on a cache miss")
         rep.add("R08b", "every generated listing is merged and sorted", not problems, ctx.where(prep), "; ".join(sorted(set(problems))[:2]), key="R08b|always")
+    ctx.r08g = linkfile_text_obligations(ctx, rep, umn, "R08g") or {}
     merge_obligations(ctx, rep, umn)
-    linkfile_text_obligations(ctx, rep, umn, "R08g")
 
 
 # ---------------------------------------------------------------------------- R08c-R08f
@@ -189,6 +189,109 @@ def _is_lookup(expr, dname, lvar, defs=None):
             and e.args and norm(e.args[0]) == f"{lvar}.selector":
         return True
     return False
+
+
+def _merge_by_evaluation(ctx, rep, umn, me) -> bool:
+    """mergeentries(old, new) evaluated on model entries: the block sets selector, name and port and one abstract; it leaves
+    type, host and num unset.  Afterwards old has exactly those three fields and the abstract from the block and keeps its own
+    type, host and num.  True when the evaluation decided."""
+    from ..paths import Const as _C, Walker as _W
+
+    prog = ctx.prog
+    if len(me.params) < 3:
+        return False
+    OLD, NEW = "<the walked entry>", "<the block>"
+    scenarios = [({"selector": "/from/block", "type": None, "name": "Block name", "host": None, "port": 7070, "num": None}, {"ABSTRACT": "text of the abstract"}),
+                 ({"selector": None, "type": "1", "name": None, "host": "other.example", "port": None, "num": 3}, {})]
+    all_problems = []
+    for newvals, newea in scenarios:
+        r = _merge_scenario(ctx, umn, me, OLD, NEW, newvals, newea)
+        if r is None:
+            return False
+        all_problems.extend(r)
+    rep.add("R08d", f"{me.qualname}: only fields the block sets override", not all_problems, ctx.where(me), "; ".join(all_problems[:3]), key="R08d|mergeentries")
+    return True
+
+
+def _merge_scenario(ctx, umn, me, OLD, NEW, newvals, newea):
+    from ..paths import Const as _C, Walker as _W
+
+    prog = ctx.prog
+    holder = {}
+
+    def which(v):
+        return v.value if v is not None and v.kind == "const" and v.value in (OLD, NEW) else None
+
+    def cv(call, target, st):
+        w = holder["w"]
+        f = call.func
+        d = dotted(f) or ""
+        args = w.cur_args or []
+        if d == "getattr" and len(args) >= 2 and which(args[0]) and args[1].kind == "const":
+            if which(args[0]) == NEW:
+                return _C(newvals.get(args[1].value)) if args[1].value in newvals else None
+            return st.facts.get("__old." + str(args[1].value), _C("old " + str(args[1].value)))
+        if d == "setattr" and len(args) == 3 and which(args[0]) == OLD and args[1].kind == "const":
+            st.facts["__old." + str(args[1].value)] = args[2]
+            return _C(None)
+        if isinstance(f, ast.Attribute) and which(w.cur_recv):
+            obj = which(w.cur_recv)
+            if obj == NEW and f.attr == "geteadict":
+                return _C(dict(newea))
+            if obj == NEW and f.attr == "getea" and args and args[0].kind == "const":
+                return _C(newea.get(args[0].value))
+            if obj == NEW and f.attr.startswith("get") and f.attr[3:] in newvals:
+                v = newvals[f.attr[3:]]
+                return _C(v) if v is not None or not args else args[0]
+            if obj == OLD and f.attr == "setea" and len(args) == 2 and args[0].kind == "const":
+                st.facts["__oldea." + str(args[0].value)] = args[1]
+                return _C(None)
+            if obj == OLD and f.attr.startswith("set") and f.attr[3:] in newvals and args:
+                st.facts["__old." + f.attr[3:]] = args[0]
+                return _C(None)
+        return None
+
+    def ev(node, st):
+        if isinstance(node, ast.Attribute) and isinstance(node.ctx, ast.Load) and isinstance(node.value, ast.Name):
+            obj = which(st.env.get(node.value.id))
+            if obj == NEW and node.attr in newvals:
+                return _C(newvals[node.attr])
+            if obj == OLD and node.attr in newvals:
+                return st.facts.get("__old." + node.attr, _C("old " + node.attr))
+        return None
+
+    def sh(target, val, st):
+        if isinstance(target, ast.Attribute) and isinstance(target.value, ast.Name) and which(st.env.get(target.value.id)) == OLD:
+            st.facts["__old." + target.attr] = val
+
+    w = _W(prog, ctx.resolver, call_value=cv, expr_value=ev, store_hook=sh, exact_loops=True, unroll=12, inline_by_name=True,
+           inline=lambda fn, t, d: d < 3 and fn is not me)
+    holder["w"] = w
+    try:
+        paths = w.run(me, umn, env={me.params[1]: _C(OLD), me.params[2]: _C(NEW)})
+    except Exception:
+        return None
+    outs = set()
+    for p in paths:
+        if p.kind == "raise":
+            return None
+        st_ = {k: (v.value if v.kind == "const" else "?") for k, v in p.state.facts.items() if k.startswith(("__old.", "__oldea."))}
+        outs.add(tuple(sorted(st_.items())))
+    if len(outs) != 1:
+        return None
+    got = dict(next(iter(outs)))
+    if "?" in got.values() or not got:
+        return None
+    want = {"__old." + k: v for k, v in newvals.items() if v is not None}
+    want.update({"__oldea." + k: v for k, v in newea.items()})
+    problems = []
+    for k, v in want.items():
+        if got.get(k) != v:
+            problems.append(f"the block's {k.split('.', 1)[1]} ({v!r}) is not carried over to the walked entry (it has {got.get(k, 'its old value')!r})")
+    for k, v in got.items():
+        if k not in want and not (isinstance(v, str) and v == "old " + k.split(".", 1)[1]):
+            problems.append(f"the walked entry's {k.split('.', 1)[1]} is overwritten with {v!r} although the block does not set it")
+    return problems
 
 
 def merge_obligations(ctx, rep, umn, rule_c="R08c", only_merge=False):
@@ -316,6 +419,8 @@ def merge_obligations(ctx, rep, umn, rule_c="R08c", only_merge=False):
     me = prog.resolve_method(umn, "mergeentries")
     if me is None:
         rep.fail("R08d", "UMNDirHandler.mergeentries", detail="field merge not found")
+    elif _merge_by_evaluation(ctx, rep, umn, me):
+        pass
     else:
         old, new = (me.params + ["old", "new"])[1:3]
         problems = []
@@ -428,11 +533,20 @@ def merge_obligations(ctx, rep, umn, rule_c="R08c", only_merge=False):
     if gl is None:
         rep.fail("R08f", "UMNDirHandler.getLinkItem", detail="link-file parser not found")
     else:
+        res = getattr(ctx, "r08g", None) or {}
+        plus = next((v for k, v in res.items() if "Host=+" in k), None)
+        other = res.get("new entry on another server")
+        decided = plus is not None and other is not None and plus[0] != "undetermined" and other[0] != "undetermined"
+        if decided:
+            # decided by evaluating the parser on a block with Host=+ / Port=+ and on one naming a host and a port (R08g)
+            for setter, key in (("sethost", "Host="), ("setport", "Port=")):
+                ok = plus[0] == "ok" and other[0] == "ok"
+                rep.add("R08f", f"{gl.qualname}: {key}+ means this server", ok, ctx.where(gl), "" if ok else (plus[1] or other[1]), key=f"R08f|{setter}")
         pm = {}
         for p_ in ast.walk(gl.node):
             for c in ast.iter_child_nodes(p_):
                 pm[c] = p_
-        for setter, key in (("sethost", "Host="), ("setport", "Port=")):
+        for setter, key in (() if decided else (("sethost", "Host="), ("setport", "Port="))):
             calls = [n for n in ast.walk(gl.node) if isinstance(n, ast.Call) and isinstance(n.func, ast.Attribute) and n.func.attr == setter]
             problems = []
             if not calls:
@@ -503,27 +617,37 @@ def linkfile_text_obligations(ctx, rep, umn, rule="R08g"):
                "setneedsmerge": "needsmerge", "setneedsabspath": "needsabspath"}
     GETTERS = {"getselector": "selector", "getname": "name", "gettype": "type", "gethost": "host", "getport": "port", "getnum": "num",
                "getneedsmerge": "needsmerge", "getneedsabspath": "needsabspath"}
+    results = {}
     for label, cap, lines, want, wantstep in LINKFILE_CASES:
         script = [l + "\n" for l in lines]
         holder = {}
 
+        ENT = "<the link entry>"
+
+        def is_entry(node_, st):
+            if not isinstance(node_, ast.Name):
+                return False
+            v = st.env.get(node_.id)
+            return v is not None and v.kind == "const" and v.value == ENT
+
         def cv(call, target, st, _script=script):
             w = holder["w"]
             f = call.func
-            if isinstance(f, ast.Attribute) and f.attr == "readline" and norm(f.value) == fdparam:
+            if isinstance(f, ast.Attribute) and f.attr == "readline":
                 i = st.facts.get("__rl", _C(0)).value
                 st.facts["__rl"] = _C(i + 1)
                 return _C(_script[i] if i < len(_script) else "")
-            if isinstance(f, ast.Attribute) and isinstance(f.value, ast.Name):
-                ent = st.facts.get("__entvar")
-                is_entry = ent is not None and ent.kind == "const" and f.value.id == ent.value
-                if is_entry and f.attr in SETTERS and w.cur_args:
+            if (dotted(f) or "").endswith("LinkEntry"):
+                st.facts["__made"] = _C(True)
+                return _C(ENT)
+            if isinstance(f, ast.Attribute) and is_entry(f.value, st):
+                if f.attr in SETTERS and w.cur_args:
                     st.facts["__ent." + SETTERS[f.attr]] = w.cur_args[0]
                     return _C(None)
-                if is_entry and f.attr == "setea" and len(w.cur_args) == 2 and w.cur_args[0].kind == "const":
+                if f.attr == "setea" and len(w.cur_args) == 2 and w.cur_args[0].kind == "const":
                     st.facts["__ent.ea:" + str(w.cur_args[0].value)] = w.cur_args[1]
                     return _C(None)
-                if is_entry and f.attr in GETTERS:
+                if f.attr in GETTERS:
                     v = st.facts.get("__ent." + GETTERS[f.attr])
                     if v is not None:
                         return v
@@ -536,24 +660,19 @@ def linkfile_text_obligations(ctx, rep, umn, rule="R08g"):
         from ..paths import Walker as _W
 
         facts = {"self.selectorbase": _C("/SB")}
-        w = _W(prog, ctx.resolver, call_value=cv, assumptions=facts, sticky=set(facts), exact_loops=True, unroll=len(script) + 4)
+        w = _W(prog, ctx.resolver, call_value=cv, assumptions=facts, sticky=set(facts), exact_loops=True, unroll=len(script) + 4,
+               inline=lambda fn, t, d: d < 3 and (t.bound_cls is not None or fn.cls is umn or (fn.cls is None and fn.module is gl.module)))
         holder["w"] = w
 
-        # the entry object: the local the LinkEntry is bound to
-        entvar = None
-        for n in ast.walk(gl.node):
-            if isinstance(n, ast.Assign) and isinstance(n.value, ast.Call) and (dotted(n.value.func) or "").endswith("LinkEntry") \
-                    and isinstance(n.targets[0], ast.Name):
-                entvar = n.targets[0].id
         problems = []
-        if entvar is None:
-            problems.append("no LinkEntry is created")
         outs = set()
         try:
-            paths = w.run(gl, umn, env={capparam: _C(cap)}, facts={**facts, "__entvar": _C(entvar)})
+            paths = w.run(gl, umn, env={capparam: _C(cap)}, facts=dict(facts))
         except Exception as exc:  # the evaluator met something it cannot model
             paths = []
             problems.append(f"the parser could not be evaluated on this block ({type(exc).__name__})")
+        if paths and not any("__made" in p.state.facts for p in paths):
+            problems.append("no LinkEntry is created")
         for p in paths:
             if p.kind != "return":
                 outs.add(("?", f"{p.kind}:{p.value}"))
@@ -569,7 +688,7 @@ def linkfile_text_obligations(ctx, rep, umn, rule="R08g"):
                         step = e.extra.value
                         break
                 has_entry = not (isinstance(ret.elts[1], ast.Constant) and ret.elts[1].value is None)
-            elif rv is not None and rv.kind == "const" and isinstance(rv.value, tuple) and len(rv.value) == 2:
+            if rv is not None and rv.kind == "const" and isinstance(rv.value, tuple) and len(rv.value) == 2:
                 step, has_entry = rv.value[0], rv.value[1] is not None
             outs.add((step, tuple(sorted(state.items())) if has_entry else None))
         if not problems:
@@ -584,3 +703,6 @@ def linkfile_text_obligations(ctx, rep, umn, rule="R08g"):
                 elif step != wantstep:
                     problems.append(f"block {lines!r} ends with next step {step!r} instead of {wantstep!r}")
         rep.add(rule, f"{gl.qualname}: {label}", not problems, ctx.where(gl), "; ".join(problems), key=f"{rule}|{label}")
+        results[label] = ("ok" if not problems else ("undetermined" if any("not determined" in x or "could not be evaluated" in x for x in problems) else "wrong"),
+                          "; ".join(problems))
+    return results
